@@ -269,6 +269,9 @@ pub mod solvers;
 pub mod variables;
 #[doc(hidden)]
 pub mod constraints;
+#[cfg(selen_verif)]
+#[doc(hidden)]
+pub mod verif_hooks;
 #[doc(hidden)]
 pub mod search;
 #[doc(hidden)]
